@@ -48,10 +48,13 @@ where
                 });
             }
 
-            if let Some(i) = graph
-                .next_edge_to(storage, current_index.index)
-                .ok()
-                .filter(|i| i.is_valid())
+            // An edge at distance 0 is the search origin. Its sibling
+            // edges are not reachable from it.
+            if current_index.distance != 0
+                && let Some(i) = graph
+                    .next_edge_to(storage, current_index.index)
+                    .ok()
+                    .filter(|i| i.is_valid())
             {
                 self.stack.push_front(SearchIndex {
                     index: i,
